@@ -602,22 +602,28 @@ func (e *Enc) alive0(r *Term) *Term { return e.tb.Gt(r, e.tb.Int(0)) }
 // ---------- frames ----------
 
 type Frame struct {
-	fn         *ssa.Function
-	vals       map[ssa.Value]Val
-	out        map[*ssa.BasicBlock]State
-	edge       map[[2]*ssa.BasicBlock]*Term
-	rets       []retInfo
-	parent     *Frame
-	entry      State
-	con        *FuncContract
-	loops      map[*ssa.BasicBlock]int // loop head -> ordinal (source order)
-	inlined    bool
-	panics     []*Term // reach conditions of panics (for contracts: not a normal return)
-	oldEnv     *evalEnv
-	assertDone map[int]bool
-	pendingInv map[*ssa.BasicBlock]*pendingLoop
-	args       []Val
-	rangeCount map[*ssa.Range]*Term // ghost iteration counter of range-over-string loops
+	fn           *ssa.Function
+	vals         map[ssa.Value]Val
+	out          map[*ssa.BasicBlock]State
+	edge         map[[2]*ssa.BasicBlock]*Term
+	rets         []retInfo
+	parent       *Frame
+	entry        State
+	con          *FuncContract
+	loops        map[*ssa.BasicBlock]int // loop head -> ordinal (source order)
+	inlined      bool
+	panics       []*Term // reach conditions of panics (for contracts: not a normal return)
+	oldEnv       *evalEnv
+	assertDone   map[int]bool
+	ghostDone    map[int]bool
+	pendingGhost []ghostStmt
+	pendingAfter []pendingAssert
+	afterDone    map[int]bool
+	defers       []deferred
+	pendingInv   map[*ssa.BasicBlock]*pendingLoop
+	variant0     map[*ssa.BasicBlock]*Term // value of the loop variant at the loop head
+	args         []Val
+	rangeCount   map[*ssa.Range]*Term // ghost iteration counter of range-over-string loops
 }
 
 type retInfo struct {
@@ -785,7 +791,7 @@ func loopOrdinals(fn *ssa.Function) map[*ssa.BasicBlock]int {
 
 // encodeFunc symbolically executes fn from state `in`.
 func (e *Enc) encodeFunc(fn *ssa.Function, args []Val, bindings []Val, in State, parent *Frame, con *FuncContract, setup func(fr *Frame)) ([]*Term, State, *Frame) {
-	fr := &Frame{fn: fn, vals: map[ssa.Value]Val{}, out: map[*ssa.BasicBlock]State{}, edge: map[[2]*ssa.BasicBlock]*Term{}, parent: parent, con: con, rangeCount: map[*ssa.Range]*Term{}, assertDone: map[int]bool{}, pendingInv: map[*ssa.BasicBlock]*pendingLoop{}}
+	fr := &Frame{fn: fn, vals: map[ssa.Value]Val{}, out: map[*ssa.BasicBlock]State{}, edge: map[[2]*ssa.BasicBlock]*Term{}, parent: parent, con: con, rangeCount: map[*ssa.Range]*Term{}, assertDone: map[int]bool{}, ghostDone: map[int]bool{}, afterDone: map[int]bool{}, pendingInv: map[*ssa.BasicBlock]*pendingLoop{}, variant0: map[*ssa.BasicBlock]*Term{}}
 	fr.loops = loopOrdinals(fn)
 	fr.inlined = parent != nil && con == nil
 	fr.args = args
@@ -1012,6 +1018,17 @@ func (e *Enc) cutLoop(fr *Frame, head *ssa.BasicBlock, st *State) {
 		e.assume(st.reach, t)
 		_ = k
 	}
+	if fr.con != nil && fr.con.variants != nil {
+		if vc, ok := fr.con.variants[ord]; ok {
+			env := e.envAt(fr, st, head)
+			v, err := env.evalAny(vc.expr)
+			if err != nil || v.t == nil || v.t.sort != "Int" {
+				e.contractError(fr, fmt.Sprintf("loop%d.decreases", ord), fmt.Errorf("variant must be an int expression: %v", err))
+			} else {
+				fr.variant0[head] = v.t
+			}
+		}
+	}
 }
 
 // loopFrameRegs: the registers a loop havocs for which the enclosing function's frame is carried as implicit invariant.
@@ -1095,6 +1112,28 @@ func (e *Enc) backEdgeCheck(fr *Frame, p, head *ssa.BasicBlock, st State) {
 			fr.vals[phi] = v
 		}
 	}
+	if v0, ok := fr.variant0[head]; ok {
+		vc := fr.con.variants[ord]
+		saved := map[*ssa.Phi]Val{}
+		for _, in := range head.Instrs {
+			if phi, ok := in.(*ssa.Phi); ok {
+				saved[phi] = fr.vals[phi]
+				for i, pp := range head.Preds {
+					if pp == p {
+						fr.vals[phi] = e.val(fr, phi.Edges[i])
+					}
+				}
+			}
+		}
+		env := e.envAt(fr, &st, head)
+		v, err := env.evalAny(vc.expr)
+		for phi, sv := range saved {
+			fr.vals[phi] = sv
+		}
+		if err == nil && v.t != nil && v.t.sort == "Int" {
+			add(fmt.Sprintf("loop%d.decreases", ord), "termination: the variant `"+vc.text+"` is non-negative and strictly decreases with every iteration", tb.And(tb.Le(tb.Int(0), v0), tb.Lt(v.t, v0)))
+		}
+	}
 	pend.seen++
 	if pend.seen == pend.want {
 		all := State{reach: tb.True(), heap: map[string]*Term{}}
@@ -1135,7 +1174,9 @@ func (e *Enc) instrWrites(in ssa.Instruction, ws *writeSet, depth int) {
 		e.addrWrites(x.Addr, x.Val.Type(), ws)
 	case *ssa.MapUpdate:
 		ws.regs["MAPS"] = true
-	case *ssa.Send, *ssa.Go, *ssa.Defer:
+	case *ssa.Send:
+		// a channel send writes no memory the unit can read
+	case *ssa.Go, *ssa.Defer:
 		ws.all = true
 	case ssa.CallInstruction:
 		c := x.Common()
@@ -1143,8 +1184,15 @@ func (e *Enc) instrWrites(in ssa.Instruction, ws *writeSet, depth int) {
 			if isLibraryType(c.Value.Type()) {
 				return
 			}
-			if ic := e.L.ifaceContract(c.Value.Type(), c.Method.Name()); ic != nil && ic.assignsNothing() {
-				return
+			if ic := e.L.ifaceContract(c.Value.Type(), c.Method.Name()); ic != nil {
+				if ic.assignsNothing() {
+					return
+				}
+				if ic.assigns != nil {
+					if sig, ok := c.Method.Type().(*types.Signature); ok && e.typeContractRegs(ic, sig, c.Value.Type(), true, ws) {
+						return
+					}
+				}
 			}
 			ws.all = true
 			return
@@ -1164,8 +1212,27 @@ func (e *Enc) instrWrites(in ssa.Instruction, ws *writeSet, depth int) {
 		}
 		callee := c.StaticCallee()
 		if callee == nil {
-			if tc := e.L.typeContract(c.Value.Type()); tc != nil && tc.assignsNothing() {
-				return
+			if tc := e.L.typeContract(c.Value.Type()); tc != nil {
+				if tc.assignsNothing() {
+					return
+				}
+				if tc.assigns != nil {
+					if sig, ok := c.Value.Type().Underlying().(*types.Signature); ok && e.typeContractRegs(tc, sig, c.Value.Type(), false, ws) {
+						return
+					}
+				}
+			}
+			if con := e.topCon(); con != nil && len(con.pureParams) > 0 {
+				switch v := c.Value.(type) {
+				case *ssa.Parameter:
+					if con.pureParams[v.Name()] {
+						return
+					}
+				case *ssa.UnOp:
+					if fv, ok := v.X.(*ssa.FreeVar); ok && con.pureParams[fv.Name()] {
+						return
+					}
+				}
 			}
 			ws.all = true
 			return
@@ -1501,4 +1568,44 @@ func countingPhi(head *ssa.BasicBlock, phi *ssa.Phi) (start int64, up bool, ok b
 		}
 	}
 	return start, up, haveStart && haveStep
+}
+
+// assignRegsIn resolves a register-level assigns location of a type / interface contract.
+func (e *Enc) assignRegsIn(pkg string, ftype types.Type, cl clause, ws *writeSet) bool {
+	env := &evalEnv{e: e, vars: map[string]SV{}, bound: map[string]SV{}, pkg: e.L.typesPkg(pkg), typeVars: typeVarsOf(ftype)}
+	r, err := e.anyReg(env, cl.text)
+	if err != nil {
+		return false
+	}
+	ws.regs[r.name] = true
+	return true
+}
+
+// ghostReg is the heap register behind a `ghost var`.
+func (e *Enc) ghostReg(name, idxSort, valSort string, t types.Type) *regInfo {
+	n := "G:" + name
+	if r, ok := e.regs[n]; ok {
+		return r
+	}
+	r := &regInfo{name: n, sort: arraySort(idxSort, valSort), typ: t}
+	e.regs[n] = r
+	return r
+}
+
+// ghostAssign executes `g(x) = E` in state st.
+func (e *Enc) ghostAssign(fr *Frame, st *State, env *evalEnv, gs ghostStmt) {
+	tv, err := env.evalAny(gs.target)
+	if err != nil || tv.greg == nil {
+		e.contractError(fr, "ghost-set", fmt.Errorf("`%s`: the target must be a ghost variable: %v", gs.text, err))
+		return
+	}
+	vv, err := env.evalAny(gs.value)
+	if err != nil {
+		e.contractError(fr, "ghost-set", err)
+		return
+	}
+	if vv.untyped && vv.t.sort != tv.t.sort {
+		vv = env.convertUntyped(vv, tv.typ)
+	}
+	e.setReg(st, tv.greg, e.tb.Store(e.reg(st, tv.greg), tv.gidx, vv.t))
 }
